@@ -173,8 +173,16 @@ def check_parse_controls(ctx, f, R='T3'):
             v = holds.get(args[1][1])
             return [absx.Out('val', ('ctor', 'Some', (('ctor', v, ()),)) if v is not None else ('ctor', 'None', ()), st)]
         return None
+    class Budgeted(absx.Interp):
+        # a decoder the models do not evaluate exactly forks on every read of every element: give up (fail closed) instead of enumerating
+        steps = 0
+        def ev(self, e, st):
+            self.steps += 1
+            if self.steps > 40000:
+                raise absx.TooManyPaths()
+            return absx.Interp.ev(self, e, st)
     def decode(ctls):
-        I = absx.Interp(f, P, summaries=[library], unroll=len(ctls) + 2, inline=inl, combinators=True, places=True)
+        I = Budgeted(f, P, summaries=[library], unroll=len(ctls) + 2, inline=inl, combinators=True, places=True)
         I.exact_seqs = True
         env = I.param_env()
         env[params[0]] = control_tree(ctls)
